@@ -36,7 +36,12 @@ RULE = ("op sequences (value, error, call, is_computed, set_value, set_error, re
         "batch, an absent future; chains), a _cancel() override that sets items, items set / subscribed from outside - in "
         "the random batch family and swept: 9 completion paths (cancel, raising flush, partial flush, item read, batch "
         "read, batch set_value / set_error, item set from outside, cancel with override) x 5 target relations x guarded/"
-        "unguarded; in the single-future families: a subscriber calling set_value/set_error on the future being notified")
+        "unguarded; in the single-future families: a subscriber calling set_value/set_error on the future being notified; "
+        "plus the KIND OF EXCEPTION OBJECT (implementation-side payload, case['ekind']): every exception instance of the case "
+        "is plain / falsy through __len__ / falsy through __bool__ / has a raising __bool__ / an __eq__ that says yes to "
+        "everything / no to everything - swept: 5 kinds x 21 ways a future of any family comes to hold an error x first reader "
+        "value/error/call, and attached to a sample of all older families; on every case a parent task finally yields each "
+        "computed future (one more reader)")
 TRUSTED = ["qcore.events.EventHook subscribe/unsubscribe/safe_trigger are modelled as list append / remove-first / a loop "
            "over a copy of the handler list (Futures.notify); qcore.errors.reraise is exercised, not modelled"]
 ASSUMPTIONS = ["callbacks raise only Exception subclasses - of any class (BaseException from a callback is outside the statement)",
@@ -700,6 +705,103 @@ def gen_pcls(rng, tier):
     return cs
 
 
+# KIND OF EXCEPTION OBJECT a future is completed with (runner: c10_impl.EKINDS / _kinded).  Implementation-side payload
+# dimension: the models abstract errors to ids, so the model output of a case does not depend on it and the
+# correspondence has to hold for every kind.  Carried as case["ekind"] (absent = "plain").
+EKINDS = ["falsy-len", "falsy-bool", "bool-raises", "eq-all", "eq-never"]
+# "bool-raises" only in the sweep (no raising subscribers there): the stdlib traceback printer, which asynq uses to report
+# a subscriber's exception, tests every exception of the chain for truth and cannot print such an object
+_EK_SAMPLED = [k for k in EKINDS if k != "bool-raises"]
+_READS = ["OValue", "OError", "OCall", "OIsComputed"]
+
+
+def _with_kind(c, ekind):
+    c = dict(c, meta=dict(c.get("meta", {}), ekind=ekind))
+    c["ekind"] = ekind
+    return c
+
+
+def _ekind_cases(rng, ekind):
+    """EVERY way a future of the statement comes to hold an error x EVERY first reader, for one kind of exception
+    object; then the other readers (the runner adds: a parent task yielding the future, for every case)."""
+    cs = []
+
+    def reads(first, n=3):
+        rest = [r for r in _READS if r != first]
+        rng.shuffle(rest)
+        return [first] + rest[:n] + [first]
+
+    def add(args, path):
+        cs.append({"args": args, "meta": {"malformed": False, "path": "error-object:" + path}})
+    for first in ("OValue", "OError", "OCall"):
+        # ErrorFuture; a failing provider / task body (Exception of a drawn class, BaseException); explicit set_error
+        add(["KError", [], {"Err": [rng.randrange(100, 130)]}, reads(first)], "KError:%s" % first)
+        for kind in ("KLazy", "KTask"):
+            sub = [{"OSubscribe": [1, "CbOk"]}] if rng.random() < 0.5 else []
+            add([kind, [_PR(rng.randrange(1, 60), _xcls(rng))], {"Ok": ["VNone"]}, sub + reads(first)], "%s:raises:%s" % (kind, first))
+            add([kind, [{"PBase": [rng.randrange(60, 90)]}, _PR(rng.randrange(1, 60))], {"Ok": ["VNone"]}, reads(first)],
+                "%s:raises-base:%s" % (kind, first))
+        for kind in ("KLazy", "KTask", "KPlain"):
+            add([kind, [{"PRet": [_val(rng)]}], {"Ok": ["VNone"]},
+                 [{"OSubscribe": [1, "CbOk"]}, {"OSetError": [rng.randrange(200, 260)]}] + reads(first)], "%s:set_error:%s" % (kind, first))
+        # an error, reset_unsafe(), a value: the new epoch reports the value; and the other way round
+        add(["KLazy", [_PR(rng.randrange(1, 60)), {"PRet": [{"VInt": [rng.randrange(1, 50)]}]}], {"Ok": ["VNone"]},
+             [first, "OError", "OReset", first, "OError", "OReset", {"OSetError": [rng.randrange(200, 260)]}] + reads(first, 1)],
+            "KLazy:epochs:%s" % first)
+        # scheduled task: failing dependency (lazy future / batch item) thrown in at the yield; body raises; set from
+        # outside while suspended (cleanup raising the same kind of object) / at top level
+        for via in ("ViaFuture", "ViaBatch"):
+            add(["KSusp", [{"mkphase": [via, "CleanOk", [], {"Err": [rng.randrange(500, 540)]}]}], {"PRet": [_val(rng)]},
+                 [{"OSubscribe": [1, "CbOk"]}] + reads(first)], "KSusp:dependency-error:%s:%s" % (via, first))
+            add(["KSusp", [{"mkphase": [via, "CleanOk", [], {"Ok": [_val(rng)]}]},
+                           {"mkphase": [via, "CleanOk", ["IIsComputed"], {"Err": [rng.randrange(500, 540)]}]}], {"PRet": [_val(rng)]},
+                 reads(first)], "KSusp:second-dependency-error:%s:%s" % (via, first))
+            add(["KSusp", [{"mkphase": [via, rng.choice(["CleanOk", {"CleanRaise": [rng.randrange(300, 340)]}, {"CleanRaiseBase": [rng.randrange(340, 360)]}]),
+                                        [{"ISetError": [rng.randrange(400, 460)]}, rng.choice(["IValue", "IError", "ICall"])],
+                                        {"Ok": [_val(rng)]}]}], {"PRet": [_val(rng)]}, reads(first)], "KSusp:inner-set-error:%s:%s" % (via, first))
+        add(["KSusp", [{"mkphase": [rng.choice(["ViaFuture", "ViaBatch"]), "CleanOk", [], {"Ok": [_val(rng)]}]}],
+             _PR(rng.randrange(1, 60), _xcls(rng)), reads(first)], "KSusp:body-raises:%s" % first)
+        add(["KSusp", [{"mkphase": ["ViaFuture", "CleanOk", [], {"Ok": [_val(rng)]}]}], {"PRet": [_val(rng)]},
+             [{"OSetError": [rng.randrange(200, 260)]}] + reads(first)], "KSusp:top-set-error:%s" % first)
+        # batch: item failed by the flush body; flush body raises (batch and forgotten items fail); cancel; set_error on
+        # the batch; an item failed from inside a sibling's callback; a _cancel() override failing an item
+        rec = lambda i: [{"": [i, "CbOk"]}]
+        every = lambda n: [_on(t, r) for t in range(n, -1, -1) for r in ([first, "OError"] if rng.random() < 0.5 else [first])]
+        add(["KBatch", [{"": [rec(1), [{"Err": [rng.randrange(600, 640)]}]]}, {"": [rec(2), [_outc(rng)]]}], {"PRet": ["VNone"]},
+             [_on(1, first)] + every(2), []], "KBatch:item-set-error:%s" % first)
+        add(["KBatch", [{"": [rec(1), [_outc(rng)]]}, {"": [rec(2), []]}], _PR(rng.randrange(1, 60), _xcls(rng)),
+             [_on(0, {"OSubscribe": [9, "CbOk"]}), rng.choice([_on(0, first), _on(2, first), "BFlush"])] + every(2), []],
+            "KBatch:flush-raises:%s" % first)
+        add(["KBatch", [{"": [rec(1), []]}, {"": [rec(2), []]}], {"PRet": ["VNone"]},
+             [rng.choice(["BCancel", _on(0, {"OSetError": [rng.randrange(200, 260)]})])] + every(2), []], "KBatch:cancel-or-set_error:%s" % first)
+        add(["KBatch", [{"": [[{"": [11, {"CbSet": [2, {"Err": [rng.randrange(600, 640)]}, rng.choice(["true", "false"])]}]}], []]},
+                        {"": [rec(2), []]}], {"PRet": ["VNone"]}, ["BCancel"] + every(2),
+             [{"": [{"n": 0}, {"Err": [rng.randrange(600, 640)]}]}] if rng.random() < 0.5 else []], "KBatch:item-failed-by-callback:%s" % first)
+    return [_with_kind(c, ekind) for c in cs]
+
+
+def gen_ekind(rng, tier):
+    """Exception-object profile: every kind x every path to a failed future x every first reader (sweep), plus a
+    sample of ALL older case families re-drawn with a kind attached (subscribers, re-entrancy, malformed streams,
+    exception classes, cross-future callbacks: all of them with every kind of error object)."""
+    cs = []
+    for _ in range(1 if tier == "quick" else 8):
+        for ek in EKINDS:
+            cs += _ekind_cases(rng, ek)
+    fams = [lambda: gen_case(rng, rng.random() < 0.25), lambda: gen_susp(rng, rng.random() < 0.25), lambda: gen_reent(rng),
+            lambda: gen_susp(rng, False, reent=True), lambda: gen_batch(rng),
+            lambda: _pcls_case(rng, *(rng.choice(PCLS_PATHS) + (rng.choice(PCLS),))),
+            lambda: _cross_case(rng, rng.choice(CROSS_PATHS), rng.choice(CROSS_RELS), rng.random() < 0.5),
+            lambda: _xcls_plain(rng, *(rng.choice(XCLS_PLAIN_PATHS) + (_xcls(rng),))),
+            lambda: _xcls_susp(rng, rng.choice(XCLS_SUSP_PATHS), _xcls(rng)),
+            lambda: _xcls_batch(rng, rng.choice(XCLS_BATCH_PATHS), _xcls(rng))]
+    for i in range(200 if tier == "quick" else 4000):
+        c = fams[i % len(fams)]()
+        c = _map_case(dict(c, tree=c["args"]), lambda _old: _xcls(rng), lambda _old: _xcls(rng)) if i % len(fams) < 5 else c
+        cs.append(_with_kind(c, _EK_SAMPLED[(i // len(fams)) % len(_EK_SAMPLED)]))
+    return cs
+
+
 def gen_cases(rng, tier):
     n = 400 if tier == "quick" else 6000
     cs = [gen_case(rng, rng.random() < 0.25) for _ in range(n)]
@@ -719,6 +821,8 @@ def gen_cases(rng, tier):
     cs += gen_pcls(rng, tier)
     # cross-future callbacks (round 7), after everything older
     cs += gen_cross(rng, tier)
+    # kind of exception object (round 9), after everything older
+    cs += gen_ekind(rng, tier)
     for c in cs:
         c["tree"] = c["args"]
     return cs
@@ -817,6 +921,21 @@ CORPUS = [
               {"PRet": ["VNone"]},
               [_on(0, {"OSubscribe": [20, "CbOk"]}), "BCancel", _on(2, "OValue"), _on(1, "OError"), "BCancel"],
               [{"": [{"n": 1}, {"Ok": [{"VInt": [8]}]}]}]], "meta": {"corpus": True}},
+    # KIND OF EXCEPTION OBJECT: a future completed with a FALSY exception instance (an aggregate error that defines
+    # __len__ and has no sub-errors) is a failed future for every reader - ErrorFuture; a lazy future whose provider
+    # raises it, value() first; a scheduled task whose dependency fails with it (thrown in at the yield); a batch item
+    # failed by the flush body; and with an instance whose __bool__ is False / raises, whose __eq__ says yes to None
+    _with_kind(_mk("KError", [], {"Err": [101]}, ["OError", "OValue", "OCall", "OIsComputed", "OError"]), "falsy-len"),
+    _with_kind(_mk("KLazy", [_PR(7)], {"Ok": ["VNone"]}, [{"OSubscribe": [1, "CbOk"]}, "OValue", "OError", "OCall", "OValue"]), "falsy-len"),
+    _with_kind(_mk("KSusp", [{"mkphase": ["ViaFuture", "CleanOk", [], {"Err": [501]}]}], {"PRet": [{"VInt": [1]}]},
+                   [{"OSubscribe": [1, "CbOk"]}, "OValue", "OError", "OCall"]), "falsy-len"),
+    _with_kind({"args": ["KBatch", [{"": [[{"": [1, "CbOk"]}], [{"Err": [601]}]]}, {"": [[{"": [2, "CbOk"]}], []]}], _PR(9, "XValue"),
+                         [_on(1, "OValue"), _on(1, "OError"), _on(2, "OCall"), _on(2, "OError"), _on(0, "OValue"), _on(0, "OError")], []],
+                "meta": {"corpus": True}}, "falsy-len"),
+    _with_kind(_mk("KTask", [_PR(9, "XRuntime")], {"Ok": ["VNone"]}, ["OCall", "OError", "OValue"]), "falsy-bool"),
+    _with_kind(_mk("KPlain", [], {"Ok": ["VNone"]}, [{"OSetError": [203]}, "OValue", "OError", {"OSetValue": ["VNone"]}, "OCall"]), "bool-raises"),
+    _with_kind(_mk("KLazy", [_PR(7, "XKey"), {"PRet": [{"VInt": [4]}]}], {"Ok": ["VNone"]}, ["OError", "OValue", "OReset", "OValue", "OError"]), "eq-all"),
+    _with_kind(_mk("KError", [], {"Err": [102]}, ["OValue", "OError", "OCall"]), "eq-never"),
 ]
 for _c in CORPUS:
     _c["tree"] = _c["args"]
@@ -838,7 +957,7 @@ def model_input(c):
 
 def canon(c):
     import json
-    return json.dumps(c["args"], sort_keys=True)
+    return json.dumps([c["args"], c.get("ekind", "plain")], sort_keys=True)
 
 
 def nontrivial(c):
@@ -881,7 +1000,10 @@ def distribution(cases):
          "unsubscribing_subscriber_followed_by_another": 0,
          "raise_classes": {}, "cases_with_raising_subscriber_by_class": {}, "xcls_profile_paths": {},
          "provider_raise_classes": {}}
+    d["error_object_kinds"] = {}
     for c in cases:
+        ek = "%s:%s" % (c["args"][0], c.get("ekind", "plain"))
+        d["error_object_kinds"][ek] = d["error_object_kinds"].get(ek, 0) + 1
         _map_case(c, lambda cls: cls, lambda cls: (d["provider_raise_classes"].__setitem__(
             c["args"][0] + ":" + cls, d["provider_raise_classes"].get(c["args"][0] + ":" + cls, 0) + 1), cls)[1])
         if "PDouble" in (c["args"][1] if c["args"][0] not in ("KSusp", "KBatch") else [c["args"][2]]):
@@ -1279,8 +1401,57 @@ def _batch_monitors(c, io):
     return fs
 
 
+def _okind(o):
+    return "not-computed" if o is None else "value" if "Ok" in o else "error" if "Err" in o else _opname(o)
+
+
+def _yield_monitors(c, io):
+    """'... always report that same outcome' for the reader that is a PARENT TASK: a parent that yields a computed
+    future receives its value as the result of the yield, or has its error thrown in at the yield."""
+    fs = []
+    kind = c["args"][0]
+    if "final" not in io:
+        return fs
+    if kind == "KBatch":
+        trip = [("KBatch/%s" % ("batch" if t == 0 else "item"), f, y, "future %d" % t)
+                for t, (f, y) in enumerate(zip(io["final"], io["yield"]))]
+    else:
+        trip = [(kind, io["final"], io["yield"], "the future")]
+    for label, final, got, wh in trip:
+        if final is not None and got != final:
+            fs.append(dict(clause="stable-outcome", site="%s:yield-from-parent:%s-instead-of-%s" % (label, _okind(got), _okind(final)),
+                           msg="a parent task that yielded %s after the last operation received %s although the future's outcome "
+                               "(is_computed()/error()/value()) is %s" % (wh, got, final)))
+    # the task of a KSusp case is itself such a parent: every yield of its body delivers the dependency's outcome
+    if kind == "KSusp":
+        phases = c["args"][1]
+        for x in io.get("resumed", []):
+            want = phases[x["phase"]]["mkphase"][3]
+            for src, w in (("set", want), ("reported", x["dep"])):
+                if x["got"] != w:
+                    fs.append(dict(clause="stable-outcome",
+                                   site="KSusp:yield:%s:dependency-%s-delivered-as-%s" % (x["via"], _okind(w), _okind(x["got"])),
+                                   msg="the body's yield number %d (dependency: %s) delivered %s although the outcome %s %s is %s" % (
+                                       x["phase"], x["via"], x["got"], src, "by the dependency's computation" if src == "set" else
+                                       "by the dependency itself (error()/value()) at that moment", w)))
+                    break
+    return fs
+
+
 def monitors(c, io, build):
-    """Direct encoding of the C10 statement over what the implementation did."""
+    """Direct encoding of the C10 statement over what the implementation did.  The site of a finding on a case
+    whose exception objects are of a non-plain kind says so."""
+    fs = _monitors0(c, io, build)
+    if "Hang" not in io:
+        fs += _yield_monitors(c, io)
+    ek = c.get("ekind", "plain")
+    if ek != "plain":
+        for f in fs:
+            f["site"] += ":error-object=" + ek
+    return fs
+
+
+def _monitors0(c, io, build):
     if "Hang" in io:
         return [dict(clause="compute-once", site="%s:hang" % c["args"][0], msg="the operations did not terminate")]
     if c["args"][0] == "KSusp":
@@ -1404,6 +1575,18 @@ def _shrink_batch4(c):
 
 
 def shrink(c):
+    """smaller cases with the same kind of exception objects; last: the same case with plain exception objects"""
+    ek = c.get("ekind", "plain")
+    for x in _shrink0(c):
+        if ek != "plain":
+            x["ekind"] = ek
+            x["meta"] = dict(x.get("meta", {}), ekind=ek)
+        yield x
+    if ek != "plain":
+        yield _case(c["args"])
+
+
+def _shrink0(c):
     if c["args"][0] == "KBatch":
         for x in _shrink_batch(c):
             yield x
